@@ -284,6 +284,18 @@ func (x *Exec) calleeEnv(st *State, key string, sig *types.Signature, recv *type
 		}
 		i++
 	}
+	// names the callee's contract may still use after a rename of its parameters (contracts.lock.json)
+	if fn != nil && x.w.lock != nil {
+		if lf := x.w.lock[fn.String()]; lf != nil && len(lf.Params) == len(fn.Params) {
+			for k, old := range lf.Params {
+				if _, have := env.vars[old]; !have && old != "" && old != fn.Params[k].Name() {
+					if v, ok := env.vars[fn.Params[k].Name()]; ok {
+						env.vars[old] = v
+					}
+				}
+			}
+		}
+	}
 	return env
 }
 
